@@ -36,12 +36,12 @@ FIXED_TAGS = [
     "krrood.adapters.nothere.X", "krrood..adapters.X", "dataclasses.dataclass", "dataclasses.MISSING", "enum.Enum",
     "abc.ABC", "decimal", "uuid", "uuid.uuid4", "uuid.NAMESPACE_DNS", "collections.abc", "collections.abc.Mapping",
     "sys.modules", "sys.path", "__main__.X", "__main__", "builtins.", ".builtins", "1.2", "1", "a.1", "a-b.c", "a/b.c",
-    "models.jsonmodel.PlainUUID", "models.jsonmodel.Coin", "models.jsonmodel.ForgotClassMethod", "models.jsonmodel.PlainFunctionFromJson", "models.badpkg_exit.Thing", "models.badpkg_exit",
+    "models.jsonmodel.PlainUUID", "models.jsonmodel.Coin", "models.jsonmodel.ForgotClassMethod", "models.jsonmodel.PlainFunctionFromJson", "models.badpkg_exit.Thing", "models.badpkg_exit", "models.badpkg_exit.Outer.Inner", "models.badpkg_runtime.Outer.Inner", "models.badpkg_exit.a.b.c",
     "models.jsonmodel.Outer", "models.jsonmodel.Outer.NestedNode", "models.jsonmodel.Outer.Missing", "models.jsonmodel.Outer.NestedNode.x",
     "models.jsonmodel.Node0.name", "models.jsonmodel.Node0._from_json", "json.decoder.JSONDecoder.decode", "json.decoder.JSONDecoder.decode.x",
     "os.path.join", "os.path.", "a\x00b.c", "os.\x00", "a" * 300 + ".b", "importlib.import_module", "types.ModuleType", "types.FunctionType", "functools.partial",
 ]
-FRAGS = ["os", "path", "json", "krrood", "adapters", "json_serializer", "models", "jsonmodel", "badpkg", "x", "X",
+FRAGS = ["badpkg_exit", "badpkg_runtime", "os", "path", "json", "krrood", "adapters", "json_serializer", "models", "jsonmodel", "badpkg", "x", "X",
          "uuid", "UUID", "typing", "List", "T", "", " ", "1", "builtins", "int", "dumps", "a_function", "TV",
          "NotSerializable", "sys", "decimal", "Decimal", "Node0", "nothere", "Outer", "NestedNode", "JSONDecoder", "decoder", "PlainUUID", "Coin"]
 
@@ -85,6 +85,7 @@ def witnesses():
         "import-error-module": {"tag": "models.badpkg.Thing", "missing": False, "extra": 0},
         "present-but-falsy-tag-reported-as-missing": {"tag": 0, "missing": False, "extra": 1},
         "module-that-exits-on-import": {"tag": "models.badpkg_exit.Thing", "missing": False, "extra": 0},
+        "module-that-exits-on-import-below-a-nested-name": {"tag": "models.badpkg_exit.Outer.Inner", "missing": False, "extra": 0},
         "from-json-is-a-plain-function-with-a-class-parameter": {"tag": "models.jsonmodel.ForgotClassMethod", "missing": False, "extra": 0},
         "serialisable-class-without-from-json": {"tag": "krrood.adapters.json_serializer.SubclassJSONSerializer", "missing": False, "extra": 1},
     }
